@@ -58,6 +58,7 @@ type bagSpec struct {
 	conns      []bagConn
 	msgs       []bagMsg
 	partition  [][]int // message indexes per chunk; nil = unchunked
+	loose      []int   // with a partition: messages written outside any chunk, ahead of the chunks
 	comp       string  // "none" | "lz4" (all chunks), unless comps is set
 	comps      []string // per-chunk compression
 	repeatConn bool    // repeat every connection record in every chunk
@@ -133,6 +134,17 @@ func encodeBag(s *bagSpec) (out []byte, order []int) {
 	written := map[uint32]bool{}
 	if s.partition == nil {
 		for i := range s.msgs {
+			m := &s.msgs[i]
+			if !written[m.conn] {
+				written[m.conn] = true
+				out = append(out, connByID[m.conn].record()...)
+			}
+			out = append(out, m.record()...)
+			order = append(order, i)
+		}
+	} else {
+		// messages written outside any chunk, ahead of the chunks (a bag may mix both)
+		for _, i := range s.loose {
 			m := &s.msgs[i]
 			if !written[m.conn] {
 				written[m.conn] = true
@@ -383,6 +395,7 @@ func maxInt(a, b int) int {
 type bagSweep struct {
 	topicLen, dataLen, defLen int
 	chunked                   bool
+	chunkLen                  int // > 0: the dataLen message stays outside any chunk and a chunk with a chunkLen message follows
 }
 
 func bagSweepCases() []bagSweep {
@@ -400,6 +413,13 @@ func bagSweepCases() []bagSweep {
 		}
 		for d := -4; d <= 4; d++ {
 			out = append(out, bagSweep{topicLen: 6, dataLen: 2<<20 + d, chunked: ch})
+		}
+	}
+	// record data buffer and chunk buffer grow independently: a large message outside any chunk
+	// followed by a large chunk, in both size orders
+	for _, l := range []int{1<<20 + 9, 3 << 20} {
+		for _, cl := range []int{1<<20 + 100, 2 << 20, 3<<20 + 64} {
+			out = append(out, bagSweep{topicLen: 6, dataLen: l, chunked: true, chunkLen: cl})
 		}
 	}
 	return out
@@ -422,6 +442,11 @@ func (c bagSweep) spec() *bagSpec {
 	}
 	// a small message first (buffers at their initial size), then the record under test, then a small one again
 	s.msgs = []bagMsg{{conn: 0, secs: 1, nsecs: 1, data: mk(3, 1)}, {conn: 1, secs: 2, nsecs: 0, data: mk(c.dataLen, 2)}, {conn: 0, secs: 3, nsecs: 0, data: mk(4, 3)}}
+	if c.chunkLen > 0 {
+		s.msgs = append(s.msgs, bagMsg{conn: 0, secs: 4, nsecs: 0, data: mk(c.chunkLen, 4)}, bagMsg{conn: 1, secs: 5, nsecs: 0, data: mk(6, 5)})
+		s.loose, s.partition, s.comps = []int{0, 1, 2}, [][]int{{3, 4}}, []string{"none"}
+		return s
+	}
 	if c.chunked {
 		s.partition, s.comps = [][]int{{0, 1, 2}}, []string{"none"}
 	}
@@ -833,7 +858,7 @@ func convertGuard(tag string, b []byte) iso.Outcome {
 
 // C18: ROS bag and ROS 2 db3 conversion keeps every message, in order.
 func C18(r *chk.Run) {
-	r.Rule("(a) every generated bag: connection id sets from {0,1,65535}, shared and distinct (type, md5) pairs incl. the same type name with different md5, two connections on one topic, <=3 messages of size {0,5[,>1 MiB]} at times {0,(1,1),(2^32-1,999999999)}, every chunk partition x {none, lz4} x connection records repeated or not, and unchunked, x 3 MCAP writer configurations, plus the same contents written by go-rosbag's own Writer (chunking by size {every record, 100 B, 64 KiB} x {none, lz4}); plus length sweeps (record header through 1 KiB and 2 KiB, message data / message definition through 1 MiB and 2 MiB, unchunked and in a chunk: the converter's buffer sizes); the output is decoded by the reference decoder and compared with the bag; (b) every generated SQLite database: 1..3 topics over 4 message types (nested, shared sub-types, the same bare type name in two packages) and one non-message type, with/without the QoS column, <=3 messages incl. equal timestamps and topics without messages; (c) corruptions of a valid bag: every truncation position, and every byte position outside the header padding x widths 1/2/4 x hostile values, plus bad magic; all conversions run in isolated workers (process exit, fatal errors and stalls are observed); distinct = cases run")
+	r.Rule("(a) every generated bag: connection id sets from {0,1,65535}, shared and distinct (type, md5) pairs incl. the same type name with different md5, two connections on one topic, <=3 messages of size {0,5[,>1 MiB]} at times {0,(1,1),(2^32-1,999999999)}, every chunk partition x {none, lz4} x connection records repeated or not, and unchunked, x 3 MCAP writer configurations, plus the same contents written by go-rosbag's own Writer (chunking by size {every record, 100 B, 64 KiB} x {none, lz4}); plus length sweeps (record header through 1 KiB and 2 KiB, message data / message definition through 1 MiB and 2 MiB, unchunked and in a chunk, and a > 1 MiB message outside any chunk followed by a > 1 MiB chunk in both size orders: the converter's buffer sizes); the output is decoded by the reference decoder and compared with the bag; (b) every generated SQLite database: 1..3 topics over 4 message types (nested, shared sub-types, the same bare type name in two packages) and one non-message type, with/without the QoS column, <=3 messages incl. equal timestamps and topics without messages; (c) corruptions of a valid bag: every truncation position, and every byte position outside the header padding x widths 1/2/4 x hostile values, plus bad magic; all conversions run in isolated workers (process exit, fatal errors and stalls are observed); distinct = cases run")
 	r.Assume("the harness' bag encoder follows the ROS bag v2.0 specification (every bag it emits is read back by go-rosbag's linear and index-based readers first; a disagreement aborts the run as a harness error); ament index trees and SQLite files are generated by the harness (github.com/mattn/go-sqlite3, in-memory)")
 	big := r.Thorough()
 	thorough := r.Thorough()
